@@ -13,7 +13,7 @@ stored-output clause and the scenario for the selected set."""
 import copy, json, os, re, shutil, signal, stat, threading, time
 import xml.etree.ElementTree as ET
 from concurrent.futures import ThreadPoolExecutor
-import vlib, e2e
+import vlib, e2e, gen_tie
 from vlib import coq_str, coq_list, coq_bool
 
 PROP = "C17"
@@ -1029,6 +1029,10 @@ def run(tier, seed):
     chk = vlib.Check(PROP, tier, seed)
     gate = vlib.coq_gate(PROP)
     vlib.gate_or_violation(chk, gate)
+    # DESIGN 11.7: these decision functions are regenerated from the Rust source and proved equal to the
+    # model's for all inputs; a failure is reported when the check finishes unless a stage below finds a
+    # concrete failing input
+    gen_tie.gate(chk, ['junit_on_test_finished', 'junit_describe', 'junit_summarize_final', 'junit_on_setup_script_finished', 'junit_is_success'], gate)
     checker = "make -C coq Properties/C17.vo && coqc gen/assump_C17.v (Print Assumptions)"
     try:
         rig = e2e.Rig()
